@@ -9,7 +9,6 @@ import (
 
 	"github.com/influxdata/influxdb/v2"
 	"github.com/influxdata/influxdb/v2/dbrp"
-	"github.com/influxdata/influxdb/v2/inmem"
 	"github.com/influxdata/influxdb/v2/kit/platform"
 	"github.com/influxdata/influxdb/v2/kv"
 	"github.com/influxdata/influxdb/v2/tenant"
@@ -34,17 +33,23 @@ var (
 )
 
 type c43World struct {
-	t    testing.TB
-	st   *inmem.KVStore
-	svc  influxdb.DBRPMappingService
+	t   testing.TB
+	st  kv.Store // inmem, or the fault store over bolt (faulted histories)
+	fs  *gkvFaultStore
+	svc influxdb.DBRPMappingService
+	// error of the last Create / Update / Delete issued by c43Apply
+	lastErr error
 	orgs [2]platform.ID
 	bkt  [2]map[string]platform.ID
 	bktN [2]map[platform.ID]string
 }
 
-func c43NewWorld(t testing.TB) *c43World {
+func c43NewWorld(t testing.TB) *c43World { return c43NewWorldOn(t, gkvNewStore(t), c43BucketNames) }
+
+// c43NewWorldOn builds the fixture (2 organizations with the given buckets) and the services on st.
+func c43NewWorldOn(t testing.TB, st kv.Store, bucketNames []string) *c43World {
 	ctx := context.Background()
-	w := &c43World{t: t, st: gkvNewStore(t)}
+	w := &c43World{t: t, st: st}
 	ts := tenant.NewService(tenant.NewStore(w.st))
 	for o := 0; o < 2; o++ {
 		org := &influxdb.Organization{Name: fmt.Sprintf("org%d", o)}
@@ -54,7 +59,7 @@ func c43NewWorld(t testing.TB) *c43World {
 		w.orgs[o] = org.ID
 		w.bkt[o] = map[string]platform.ID{}
 		w.bktN[o] = map[platform.ID]string{}
-		for _, n := range c43BucketNames {
+		for _, n := range bucketNames {
 			b := &influxdb.Bucket{OrgID: org.ID, Name: n}
 			if err := ts.CreateBucket(ctx, b); err != nil {
 				t.Fatalf("fixture bucket: %v", err)
@@ -291,12 +296,14 @@ func c43Apply(w *c43World, m *c43Model, op c43Op) (viol []c43Viol, outcome strin
 		viol = append(viol, c43Viol{class, map[string]string{"op": op.Kind}, msg})
 	}
 	dk := [2]int{op.Org, op.DB}
+	w.lastErr = nil
 	switch op.Kind {
 	case "create":
 		exists := m.find(op.Org, op.DB, op.RP) != nil
 		id := c43FreshID(m, op.Org, op.DB, op.RP)
 		bucket := w.bkt[op.Org][fmt.Sprintf("t%d", op.RP)]
 		err := w.svc.Create(ctx, &influxdb.DBRPMapping{ID: id, Database: c43DBs[op.DB], RetentionPolicy: c43RPs[op.RP], Default: op.Def, OrganizationID: orgID, BucketID: bucket})
+		w.lastErr = err
 		switch {
 		case exists && err == nil:
 			bad("duplicate_dbrp_created", fmt.Sprintf("%s succeeded although a mapping for that (org, db, rp) exists", op))
@@ -334,6 +341,7 @@ func c43Apply(w *c43World, m *c43Model, op c43Op) (viol []c43Viol, outcome strin
 		if op.Kind == "setdef" {
 			cur.Default = op.Def
 			err = w.svc.Update(ctx, cur)
+			w.lastErr = err
 			if err != nil {
 				bad("update_rejected", fmt.Sprintf("%s failed: %v", op, err))
 				outcome = "error"
@@ -357,6 +365,7 @@ func c43Apply(w *c43World, m *c43Model, op c43Op) (viol []c43Viol, outcome strin
 		cur.RetentionPolicy = c43RPs[op.NewRP]
 		clash := m.find(op.Org, op.DB, op.NewRP) != nil
 		err = w.svc.Update(ctx, cur)
+		w.lastErr = err
 		switch {
 		case clash && err == nil:
 			bad("duplicate_dbrp_created", fmt.Sprintf("%s succeeded although another mapping already has that (org, db, rp)", op))
@@ -377,6 +386,7 @@ func c43Apply(w *c43World, m *c43Model, op c43Op) (viol []c43Viol, outcome strin
 			id = tgt.ID
 		}
 		if err := w.svc.Delete(ctx, orgID, id); err != nil {
+			w.lastErr = err
 			bad("delete_rejected", fmt.Sprintf("%s failed: %v", op, err))
 			outcome = "error"
 			return
@@ -562,11 +572,6 @@ func c43Sweep(w *c43World, m *c43Model, org int, trigger string, ev func(string)
 				defs = append(defs, x)
 			}
 		}
-		yes := true
-		lookup, ok := find("org+db+default", influxdb.DBRPMappingFilter{OrgID: &orgID, Database: &dbName, Default: &yes})
-		if !ok {
-			continue
-		}
 		switch {
 		case len(phys) > 0 && len(defs) != 1:
 			add("default_count", map[string]string{"filter": "org+db", "count": fmt.Sprint(len(defs))},
@@ -576,6 +581,11 @@ func c43Sweep(w *c43World, m *c43Model, org int, trigger string, ev func(string)
 				fmt.Sprintf("database %s of org%d lists %d default mappings: %v", dbName, org, len(defs), c43Strs(w, org, byDB)))
 		}
 		ev("default_count_checked")
+		yes := true
+		lookup, ok := find("org+db+default", influxdb.DBRPMappingFilter{OrgID: &orgID, Database: &dbName, Default: &yes})
+		if !ok {
+			continue
+		}
 		// a lookup with an empty retention policy returns that default
 		switch {
 		case len(defs) == 1 && len(lookup) != 1:
@@ -718,10 +728,12 @@ func c43Report(r *vkit.Run, w *c43World, hist []string, after string, vs []c43Vi
 func TestC43(t *testing.T) {
 	r := vkit.Start(t, "C43", "exploration")
 	defer r.Finish()
-	r.Rule("real dbrp.Service over real tenant buckets (2 orgs × buckets d0, d0/r1, d1/r2, t0..t2) on the in-memory KV store; operations create(default?)/update(default:=true|false)/update(rp:=other)/delete over 2 orgs × {d0,d1} × {autogen,r1,r2} (84 operations), addressed by (org,db,rp) slot incl. slots that hold no mapping; after every operation a sweep through FindMany (org, org+db, org+db+default, org+db+rp, unfiltered) and FindByID checks: ≤1 bucket per (db,rp), exactly one default per database with a physical mapping, empty-rp lookup = that default, promotion after delete/unset ∈ remaining mappings, mappings of the model present and unchanged. quick: random histories (plus operations addressed at virtual mapping ids); thorough: every history of length ≤5 over the 84 operations, explored as the graph of distinct KV states (a state is expanded once; histories that reach byte-identical dbrp buckets share their continuation). non-trivial = the operation changed the store; distinct = (state, operation) resp. the history")
+	r.Rule("real dbrp.Service over real tenant buckets (2 orgs × buckets d0, d0/r1, d1/r2, t0..t2) on the in-memory KV store; operations create(default?)/update(default:=true|false)/update(rp:=other)/delete over 2 orgs × {d0,d1} × {autogen,r1,r2} (84 operations), addressed by (org,db,rp) slot incl. slots that hold no mapping; after every operation a sweep through FindMany (org, org+db, org+db+default, org+db+rp, unfiltered) and FindByID checks: ≤1 bucket per (db,rp), exactly one default per database with a physical mapping, empty-rp lookup = that default, promotion after delete/unset ∈ remaining mappings, mappings of the model present and unchanged. quick: random histories (plus operations addressed at virtual mapping ids); thorough: every history of length ≤5 over the 84 operations, explored as the graph of distinct KV states (a state is expanded once; histories that reach byte-identical dbrp buckets share their continuation). non-trivial = the operation changed the store; distinct = (state, operation) resp. the history. faulted histories (both tiers): the same operations and model on a real bolt store behind a fault-injecting kv.Store wrapper (organizations with buckets t0..t2 only, so all mappings of d0/d1 are physical); 3 of 4 operations are first attempted with a fault inside — the commit, then the 1st, 2nd, … Put/Delete of the transaction (any KV bucket, or only dbrpdefaultv1 / one of the other dbrp buckets) returns an I/O error, one position per attempt, until an attempt passes the last position and the operation goes through; an attempt that returned an error must leave the four dbrp KV buckets byte-identical and the sweep intact; an attempt that returned nil although the fault fired is taken at its word (model advances, sweep judges: exactly one default, empty-rp lookup returns it); non-trivial = ≥1 fault fired and ≥2 store-changing operations")
 	alphabet := c43Alphabet()
 	w := c43NewWorld(t)
 	ev := func(n string) { r.Event(n, 1) }
+
+	c43FaultedHistories(r, t, ev)
 
 	if !r.Quick() {
 		c43Exhaustive(r, w, alphabet, 5)
